@@ -126,7 +126,7 @@ def returns_hash_iterator(s):
     # the source may be the receiver or an argument (chain(..)) of the tail chain
     for n in walk(tail, into_closures=False):
         if n is s.node:
-            return all(x.get("k") in ("MethodCall", "AddrOf", "Field", "Path", "DropTemps", "Use") for x in walk(tail, into_closures=False))
+            return True
     return False
 
 
@@ -219,8 +219,9 @@ def sorted_lists(ctx, sorted_locals):
                 ctx.bad("C06.3", key, site(node), "the repetition iterates `%s`, which is not a Vec sorted immediately after collection" % strip(e).get("name"))
                 continue
             cmp_t = show(N.term(a["sort_node"]["args"][0]))
-            ok = cmp_t == "|2|{Ord::cmp(ToString::to_string(T[#0](C1_0)),ToString::to_string(T[#0](C1_1)))}"
-            ctx.expect(ok and a["sort"] in ("slice::sort_by",), "C06.3", key, site(node),
+            ok = (a["sort"] in ("slice::sort_by", "slice::sort_unstable_by") and cmp_t == "|2|{Ord::cmp(ToString::to_string(T[#0](C1_0)),ToString::to_string(T[#0](C1_1)))}") or \
+                 (a["sort"] in ("slice::sort_by_key", "slice::sort_by_cached_key", "slice::sort_unstable_by_key") and cmp_t == "|1|{ToString::to_string(T[#0](C1_0))}")
+            ctx.expect(ok, "C06.3", key, site(node),
                        "emitted list is the HashSet collected into a Vec and sorted by the elements' token strings (total order on distinct token strings)",
                        "comparator is not `cmp` of the two elements' token strings: " + cmp_t)
     ctx.count("repetitions in Derives::to_tokens", reps, 2)
